@@ -222,6 +222,11 @@ class OpGen:
                 op = [c, x, [self.fresh_str()]]          # ValueError: no parent
             elif rng.random() < 0.03:
                 op = [c, x, [[0, x]]]                     # ValueError: itself
+            elif rng.random() < 0.06:
+                # itself among several arguments, at any place: the call is refused as a whole - nothing may have moved
+                others = pick_args(r.P[x], exclude=(x,))
+                k = rng.randint(0, len(others))
+                op = [c, x, others[:k] + [[0, x]] + others[k:]]
             else:
                 op = [c, x, pick_args(r.P[x], exclude=(x,))]
         elif c == 6:
